@@ -466,6 +466,9 @@ func runCheck(o *Options, e *Engine, prop string) *CheckRun {
 		budget := o.TimeoutS * 4
 		if ob.cx.bc != nil && ob.cx.bc.C.TimeoutS > 0 {
 			budget = ob.cx.bc.C.TimeoutS * 3
+			if o.Tier == "thorough" {
+				budget *= 3 // the deeper unrolling of the thorough tier runs alone here: machine load must not turn it into an alarm
+			}
 		}
 		var queries []string
 		if len(ob.parts) > 1 {
